@@ -47,6 +47,8 @@ def be(content, off, w):
     cells = _cells(content, off, w)
     if all(z3.is_int_value(c) for c in cells):
         return z3.IntVal(int.from_bytes(bytes(c.as_long() % 256 for c in cells), "big"))
+    if w <= 4:
+        return X.be_sum(cells)        # short fields: plain big-endian arithmetic (linear)
     return dec_fn(w)(*cells)
 
 
@@ -59,6 +61,8 @@ def be_facts(content, off, w):
     fs = [z3.And(val >= 0, val < 2 ** (8 * w))]
     for i, c in enumerate(cells):
         fs.append(z3.And(c >= 0, c < 256, enc_fns(w)[i](val) == c))
+    if w <= 4:
+        fs.append(val == X.be_sum(cells))
     return z3.And(fs)
 
 
